@@ -74,6 +74,17 @@ CLAIMS = {
         'technique': 'TLA+ model checking (TLC) + replay of TLC histories through writer->store->reader + TLC trace validation of recorded fingerprints',
         'design_ref': '5/C04',
     },
+    'C05': {
+        'level': 'model_checking',
+        'text': 'IngestLifecycle.tla models the goroutines of one ingest request (handler, parser with tamePanic, doPush without recover, insert worker without recover) '
+                'x fault stage x fault kind; TLC (with fairness) establishes which faults end in a response and a live process and which are hazards. TLC enumerates, from the '
+                'driver\'s schema of 17 routes x fields x defect classes, every single and pairwise field defect; all singles, a seeded sample of pairs and seeded byte-level '
+                'mutations are sent to the REAL writer router (production service wiring over the fake ClickHouse client) in a child process. Verdicts: answered within 5 s, '
+                'child alive (a crash is an observation with its panic frame), a following valid push succeeds with a rectangular block, no goroutine spinning or left behind.',
+        'note': 'field-defect classes exhaustive for singles, sampled for pairs; raw bytes sampled per seed: a crash needing a byte pattern outside every class is out of reach of this technique.',
+        'technique': 'TLA+ lifecycle model checking + TLC-enumerated defect cases replayed into the real router in a child process',
+        'design_ref': '5/C05',
+    },
 }
 
 NOT_YET = 'check not built yet in this round (planned, see DESIGN.md section 5); not claimed until its machinery runs'
